@@ -336,8 +336,8 @@ Proof. exact C12_order.stored_pipeline. Qed.
    at least tol apart, in any order): Interpolation(px, py) is the object with strictly increasing abscissae, the
    ordinates carried along and the divided differences as coefficient table (every generated loop of set(): argument
    dispatch, slices, zip loop, duplicate test, _order_points, _compute_table); it does not depend on the order of
-   the points; any pair of abscissae closer than tol gives ValueError.  Two tuples and the copy constructor: any n
-   (C12_constructor_forms_any, C12_copy_any); interleaved scalars: n = 3, 4 only (C12_constructor_3/_4). *)
+   the points; any pair of abscissae closer than tol gives ValueError.  Two tuples, interleaved scalars and the copy
+   constructor: any n as well (C12_constructor_forms_any, C12_copy_any); not proved: the ordinates-only form. *)
 Theorem C12_constructor_any : forall px py : list R,
   List.length py = List.length px -> (2 <= List.length px <= 64)%nat -> C12_gen.separated px ->
   let xs' := C12_order.sx px in let ys' := C12_order.sy px py in
@@ -361,16 +361,21 @@ Theorem C12_constructor_order_independent_any : forall px py px' py' : list R,
   = Interpolation___init__ Rops (VObj cInterpolation [VNone; VNone; VNone; VNone]) (VTuple [C12_gen.flist px'; C12_gen.flist py']).
 Proof. exact C12_set.init_order_independent. Qed.
 
-(* [ideal] other input forms, ANY n: two tuples give the same object as two lists (n in 2..64), and the copy
-   constructor Interpolation(obj) returns an object with the fields of obj (any table, any n) *)
+(* [ideal] other input forms, ANY n in 2..64: two tuples and interleaved scalars Interpolation(x1, y1, x2, y2, ...)
+   (C12_set.inter px py = [x1; y1; x2; y2; ...]) give the same object as two lists; the copy constructor
+   Interpolation(obj) returns an object with the fields of obj (any table, any n) *)
 Theorem C12_constructor_forms_any : forall px py : list R,
   List.length py = List.length px -> (2 <= List.length px <= 64)%nat -> C12_gen.separated px ->
+  let two_lists := Interpolation___init__ Rops (VObj cInterpolation [VNone; VNone; VNone; VNone])
+                     (VTuple [C12_gen.flist px; C12_gen.flist py]) in
   Interpolation___init__ Rops (VObj cInterpolation [VNone; VNone; VNone; VNone])
-    (VTuple [VTuple (map VFloat px); VTuple (map VFloat py)])
-  = Interpolation___init__ Rops (VObj cInterpolation [VNone; VNone; VNone; VNone])
-    (VTuple [C12_gen.flist px; C12_gen.flist py]).
+    (VTuple [VTuple (map VFloat px); VTuple (map VFloat py)]) = two_lists /\
+  Interpolation___init__ Rops (VObj cInterpolation [VNone; VNone; VNone; VNone])
+    (VTuple (C12_set.inter px py)) = two_lists.
 Proof.
-  intros px py L Hn S. rewrite (C12_set.init_tuples px py L Hn S), (C12_set.init_lists px py L Hn S). reflexivity.
+  intros px py L Hn S two_lists. subst two_lists.
+  rewrite (C12_set.init_tuples px py L Hn S), (C12_set.init_scalars px py L Hn S), (C12_set.init_lists px py L Hn S).
+  split; reflexivity.
 Qed.
 Theorem C12_copy_any : forall (a b c : list R) (t : R),
   Interpolation___init__ Rops (VObj cInterpolation [VNone; VNone; VNone; VNone])
